@@ -520,6 +520,7 @@ func (u *Universe) strPreamble(b *strings.Builder) {
 }
 
 func (u *Universe) declPreamble(b *strings.Builder) {
+	b.WriteString("(declare-fun godiv (Int Int) Int)\n(declare-fun gorem (Int Int) Int)\n")
 	for _, sym := range u.declOrd {
 		b.WriteString(u.decls[sym])
 		b.WriteString("\n")
